@@ -122,7 +122,8 @@ public:
    void append(const std::string &s) { if (&s != &g_args_data[1]) { g_incl_wrong_path++; } }
    const char *c_str() const { return(&tag); }
 };
-static bool load_option_file(const char *filename, int compat_level) { g_incl++; return(nondet_bool()); }
+// load_option_file counts the lines of the file it reads in cpd.line_number (src/option.cpp): any value afterwards
+static bool load_option_file(const char *filename, int compat_level) { g_incl++; cpd.line_number = nondet_uint(); return(nondet_bool()); }
 // renamed / removed options of earlier versions: handled (true) or not, any way
 #define COMPAT(v) \
    static bool process_option_line_compat_0_ ## v(const std::string &cmd, const char *filename) { bool r = nondet_bool(); if (r) { g_compat_handled++; } return(r); } \
@@ -148,5 +149,6 @@ struct option_map_t
 //@slice src/option.cpp fn option_level
 extern "C" {
 //@slice src/option.cpp fn process_option_line
+extern unsigned *const CPD_LINE_NUMBER = &cpd.line_number;
 extern const unsigned CT_NONE_V = CT_NONE, CT_TYPE_V = CT_TYPE, CT_MACRO_OPEN_V = CT_MACRO_OPEN, CT_MACRO_CLOSE_V = CT_MACRO_CLOSE, CT_MACRO_ELSE_V = CT_MACRO_ELSE;
 }
